@@ -263,16 +263,22 @@ def parse_coq_list(out, name):
 # ---------------------------------------------------------------- harness
 def build_harness(name, tags=BUILD_TAG):
     """Build harness/cmd/<name> against REPO's current working tree with the hook tag on.
+    The shared harness/go.mod is never rewritten: a private -modfile under .work carries the
+    `replace => REPO` (so checks pointed at a scratch worktree through VERIF_REPO cannot disturb others).
     Returns (exe, "") or (None, compiler output)."""
-    with Lock("harness"):
-        shutil.copyfile(os.path.join(REPO, "go.sum"), os.path.join(HARNESS, "go.sum"))
+    tagdir = hashlib.sha1(REPO.encode()).hexdigest()[:10]
+    moddir = os.path.join(WORK, "gomod-" + tagdir)
+    with Lock("harness-" + tagdir):
+        os.makedirs(moddir, exist_ok=True)
         gomod = open(os.path.join(HARNESS, "go.mod")).read()
-        want = "replace github.com/valinurovam/garagemq => " + REPO
-        gomod2 = re.sub(r"replace github.com/valinurovam/garagemq => \S+", want, gomod)
-        if gomod2 != gomod:
-            open(os.path.join(HARNESS, "go.mod"), "w").write(gomod2)
-        exe = os.path.join(HARNESS, "bin", name)
-        p = sh(["go", "build", "-tags", tags, "-o", exe, "./cmd/" + name], cwd=HARNESS, env=GOENV, timeout=900)
+        gomod = re.sub(r"replace github.com/valinurovam/garagemq => \S+", "replace github.com/valinurovam/garagemq => " + REPO, gomod)
+        modfile = os.path.join(moddir, "go.mod")
+        if not os.path.exists(modfile) or open(modfile).read() != gomod:
+            open(modfile, "w").write(gomod)
+        shutil.copyfile(os.path.join(REPO, "go.sum"), os.path.join(moddir, "go.sum"))
+        suffix = "" if REPO == "/repo" else "-" + tagdir
+        exe = os.path.join(HARNESS, "bin", name + suffix)
+        p = sh(["go", "build", "-modfile", modfile, "-tags", tags, "-o", exe, "./cmd/" + name], cwd=HARNESS, env=GOENV, timeout=900)
         if p.returncode != 0:
             return None, p.stderr[-4000:]
         return exe, ""
@@ -306,7 +312,12 @@ def known_findings(prop):
 def write_replay(prop, seed, payload):
     d = os.path.join(VERIF, "replays")
     os.makedirs(d, exist_ok=True)
-    p = os.path.join(d, "%s-%s-%d.json" % (prop, seed, int(time.time())))
+    n = 0
+    while True:
+        p = os.path.join(d, "%s-%s-%d-%d.json" % (prop, seed, int(time.time()), n))
+        if not os.path.exists(p):
+            break
+        n += 1
     json.dump(payload, open(p, "w"), indent=1, default=str)
     return p
 
